@@ -17,3 +17,4 @@ pub mod a2;
 pub mod g3;
 pub mod d5;
 pub mod t14;
+pub mod w2;
